@@ -88,6 +88,7 @@ def gen_case(rng):
         "insert_order": rng.choice(["append", "prepend", "insert"]),
         "newroot": trees.gen_tree(rng, max_depth=1, max_kids=2, nss=["", "urn:x"], text=text, stress=False) if rng.random() < 0.5 else None,
         "drop": rng.choice([[False, False], [True, False], [False, True], [True, True]]),
+        "reuse_options": rng.random() < 0.4,
     }
     return case
 
@@ -234,7 +235,14 @@ def run_impl(case):
     # parser options
     try:
         c, p = case["drop"]
-        d2 = Document(source_xml(case), parser_options=ParserOptions(remove_comments=c, remove_processing_instructions=p))
+        if case.get("reuse_options"):
+            # one options object, used for another configuration first and reconfigured through its attributes
+            opts = ParserOptions(remove_comments=not c, remove_processing_instructions=not p)
+            Document(source_xml(case), parser_options=opts)
+            opts.remove_comments, opts.remove_processing_instructions = c, p
+        else:
+            opts = ParserOptions(remove_comments=c, remove_processing_instructions=p)
+        d2 = Document(source_xml(case), parser_options=opts)
         res["dropped"] = observe(d2)
     except Exception as e:  # noqa: BLE001
         res["drop_err"] = f"{type(e).__name__}: {e}"
